@@ -1,6 +1,8 @@
 import DivanModel.Driver.Util
 import DivanModel.Driver.C11
 import DivanModel.Driver.C10
+import DivanModel.Driver.C18
+import DivanModel.Driver.C16
 /-! Line-protocol driver. One request per line: `verb args…<TAB>implementation observation`.
     One answer per line: `model observation<TAB>spec verdict on the implementation's observation<TAB>branch tag`. -/
 open Driver
@@ -9,6 +11,8 @@ def dispatch (verb : String) (args : List String) (obs : String) : Option Reply 
   match verb with
   | "tsc" | "tsc3" | "tscshift" | "dur" | "prec" | "precs" => C11.handle verb args obs
   | "tally" | "tallymt" | "prof" => C10.handle verb args obs
+  | "fd" | "f64" | "bytes" | "thr" => C18.handle verb args obs
+  | "natcmp" | "natcmp3" | "argcmp" | "argsort" => C16.handle verb args obs
   | _ => none
 
 def answer (line : String) : String :=
